@@ -38,8 +38,6 @@ PROP = dict(
         "highload: fits_in_cell_highload states the outer layout given the dictionary cell; that the dictionary of n<=254 "
         "entries always builds and decodes back (decode_build for HighLoadV2R2) is checked by correspondence on every run "
         "(0..254 messages), not proved in Lean - it is the dictionary round-trip of C05",
-        "Cell.hashO is tied to the real hash by correspondence (digest compared on every case), not by a Lean theorem "
-        "about Cell.reprHash",
     ],
     level_text="Theorems for all inputs about the Lean model: for v3/v4/v5r1/v5beta the builders return written-out layouts "
                "that fit a cell; the digest signed and the digest verified are the representation hash of exactly the cell "
